@@ -725,6 +725,8 @@ int cmd_run(const Args &a) {
           close(pfd[0]);
           CaseOut cc;
           run_case(gp, cc);
+          if (audit_every > 0 && run % audit_every == 0)
+            fprintf(out, "H %ld %016llx %016llx %016llx\n", run, (unsigned long long)cc.plan_hash, (unsigned long long)cc.hash, (unsigned long long)cc.obs);
           long rec[8] = {cc.evaluations, cc.nontrivial, 0, 0, (long)cc.st.ops, (long)cc.st.asm_checked, (long)cc.st.steps, (long)cc.st.switches};
           int shown = 0;
           for (const Found &f : cc.found) {
